@@ -809,14 +809,27 @@ func (s *state) upgraderLevel() {
 				if s.r.Quick() && ti != tr && ti != "ed25519" {
 					continue
 				}
-				for _, exp := range []string{"matching", "different", "empty"} {
-					proto, ti, tr, exp := proto, ti, tr, exp
+				for _, expl := range []string{"matching", "different", "empty", "matching/inbound-names-matching", "matching/inbound-names-different", "different/inbound-names-different"} {
+					proto, ti, tr := proto, ti, tr
+					exp, lexp := expl, ""
+					if i := strings.IndexByte(expl, '/'); i >= 0 {
+						// the side that runs the security handshake as the SERVER names a peer as well (a TCP
+						// simultaneous connect: the dialer that is not the client upgrades with DirInbound and p)
+						exp, lexp = expl[:i], expl[i+1:]
+					}
 					jobs = append(jobs, func() {
-						id := fmt.Sprintf("upgrader/%s/%s-%s/dial-expects-%s", proto, ti, tr, exp)
+						id := fmt.Sprintf("upgrader/%s/%s-%s/dial-expects-%s", proto, ti, tr, expl)
 						if !s.r.Want(id) {
 							return
 						}
 						ki, kr, ko := s.pool[ti][0], s.pool[tr][1], s.pool[ti][2]
+						var lp peer.ID
+						switch lexp {
+						case "inbound-names-matching":
+							lp = ki.ID
+						case "inbound-names-different":
+							lp = ko.ID
+						}
 						var p peer.ID
 						switch exp {
 						case "matching":
@@ -855,7 +868,7 @@ func (s *state) upgraderLevel() {
 							}()
 							go func() {
 								defer wg.Done()
-								c, err := ur.Upgrade(ctx, nil, b, network.DirInbound, "", &network.NullScope{})
+								c, err := ur.Upgrade(ctx, nil, b, network.DirInbound, lp, &network.NullScope{})
 								if err != nil {
 									b.Close()
 									return
@@ -868,7 +881,7 @@ func (s *state) upgraderLevel() {
 							b.Close()
 						})
 						s.r.Eval(1)
-						detail := map[string]any{"proto": proto, "dialer_key": ti, "listener_key": tr, "expect": exp, "dial_ok": dialOK, "dial_err": dialErr, "dial_remote": dialPeer, "listen_ok": lisOK, "listen_remote": lisPeer}
+						detail := map[string]any{"proto": proto, "dialer_key": ti, "listener_key": tr, "expect": exp, "inbound_side_names": lexp, "dial_ok": dialOK, "dial_err": dialErr, "dial_remote": dialPeer, "listen_ok": lisOK, "listen_remote": lisPeer}
 						if s.r.BubbleFailed(br, "upgrader", id, "upgrade never wound down", map[string]any{"case": detail}) {
 							return
 						}
@@ -878,6 +891,15 @@ func (s *state) upgraderLevel() {
 						}
 						if lisOK && lisPeer != ki.ID {
 							s.r.Violation("upgrader:wrong-remote-peer/listener", id, "upgraded inbound conn reports the wrong remote peer", detail)
+						}
+						if lisOK && lexp == "inbound-names-different" {
+							s.r.Violation("upgrader:expected-peer-not-enforced/inbound-side-names-a-peer", id, "Upgrade(DirInbound, P) returned a conn authenticated as someone other than P", detail)
+						}
+						if lexp == "inbound-names-different" && !lisOK {
+							s.r.Count("upgrader_inbound_named_mismatch_rejected", 1)
+						}
+						if lexp == "inbound-names-matching" && lisOK && dialOK {
+							s.r.Count("upgrader_inbound_named_matching_completed", 1)
 						}
 						if dialOK && exp == "different" {
 							s.r.Violation("upgrader:expected-peer-not-enforced", id, "Upgrade for peer P returned a conn authenticated as someone else", detail)
@@ -896,4 +918,6 @@ func (s *state) upgraderLevel() {
 	run.Parallel(len(jobs), 0, func(i int) { jobs[i]() })
 	s.r.Require("upgrader_completed", 4)
 	s.r.Require("upgrader_mismatch_rejected", 4)
+	s.r.Require("upgrader_inbound_named_mismatch_rejected", 4)
+	s.r.Require("upgrader_inbound_named_matching_completed", 4)
 }
